@@ -79,7 +79,7 @@ VALOPT = {"salt": ("-s", "salt"), "words": ("-w", "sensitive-words"), "asns": ("
 OTHER = {"salt": "otherSalt", "words": "qqq,www", "asns": "7,9", "reserved": "zzz", "prefixes": "12.0.0.0/6", "addresses": "99.0.0.0/8", "hostbits": "3", "dump": None}
 
 
-def build(settings, placement, d, tag, cfg_style=0, long_names=False):
+def build(settings, placement, d, tag, cfg_style=0, long_names=False, abbrev=False):
     """Return argv (and write the config file) for the settings under the given placement."""
     argv = ["-i", os.path.join(d, "in"), "-o", os.path.join(d, "out-" + tag)]
     cfg_lines = []
@@ -99,9 +99,12 @@ def build(settings, placement, d, tag, cfg_style=0, long_names=False):
                 cfg_lines.append([name + "=true", name + ": true", name][cfg_style % 3])
             continue
         short, name = VALOPT[k]
+        use_abbrev = abbrev and k in ("words", "asns", "reserved", "hostbits")
+        if use_abbrev:
+            name = name[:-1]  # unambiguous abbreviation: accepted wherever the full name is
         val = os.path.join(d, "map-" + tag) if k == "dump" else str(v)
         if where in ("cli", "both", "conflict"):
-            argv += [("--" + name) if long_names else short, val]
+            argv += [("--" + name) if (long_names or use_abbrev) else short, val]
         if where in ("cfg", "both"):
             cfg_lines.append([name + "=" + val, name + ": " + val, name + " = " + val][cfg_style % 3])
         elif where == "conflict" and OTHER.get(k):
@@ -170,7 +173,7 @@ def check_vector(case, ev):
         ncfg = sum(1 for k, w in placement.items() if settings.get(k) not in (None, False) and w in ("cfg", "both", "conflict"))
         ncli = sum(1 for k in OPTS if settings.get(k) not in (None, False) and placement.get(k, "cli") in ("cli", "both", "conflict"))
         ev.case(case, kind != "valid" or (ncfg >= 1 and ncli >= 1), ["kind-" + kind.split(":")[0]] + (["conflict"] if "conflict" in placement.values() else []) + (["cfg-and-cli"] if ncfg and ncli else []))
-        argv = build(settings, placement, d, "a", case.get("cfg_style", 0), case.get("long", False))
+        argv = build(settings, placement, d, "a", case.get("cfg_style", 0), case.get("long", False), bool(case.get("abbrev")))
         if kind.startswith("reject"):
             argv = _reject_argv(argv, kind)
             before = _snapshot(d)
@@ -349,7 +352,7 @@ def _case(draw):
         if kind == "reject:hostbits" and k == "hostbits" and s["hostbits"].startswith("-") and w != "cfg":
             w = draw(st.sampled_from(["cli", "cfg"]))
         placement[k] = w
-    return {"settings": s, "placement": placement, "kind": kind, "cfg_style": draw(st.integers(0, 2)), "long": draw(st.booleans())}
+    return {"settings": s, "placement": placement, "kind": kind, "cfg_style": draw(st.integers(0, 2)), "long": draw(st.booleans()), "abbrev": draw(st.integers(0, 3)) == 0}
 
 
 def t_vectors(shard, nshards, seed, ev, known, n=50):
